@@ -130,7 +130,9 @@ def hSpell : Handler
   | [n, a, f, h, o] =>
     let v : Variant := ⟨parseBool a, parseBool f, parseBool h⟩
     let ps := pieces v (parseBool o) (parseNat n)
-    showCps (joinPieces ps) ++ "|" ++ ";".intercalate (ps.map fun p => showCps p.1)
+    -- the token list through the very functions the C04 theorems name (`spell` / `spellOrd`; audit item 35)
+    let toks := if parseBool o then spellOrd (parseNat n) v else spell (parseNat n) v
+    showCps (joinPieces ps) ++ "|" ++ ";".intercalate (toks.map showCps)
   | _ => "bad-op"
 
 def hSpellEu : Handler
